@@ -131,8 +131,13 @@ def run_jobs(jobs, njobs, verbose=False):
 
     def failed(job, why, retry):
         unit = job[0]
-        if not retry:
-            launch(_float_only, job, why)
+        if not retry and 'hard time limit' not in why:
+            # a worker that vanished without a result (seen once on a heavily loaded machine, the
+            # same unit passes when run again): one more full symbolic attempt first
+            launch(_worker, job, 'again: ' + why)
+            return
+        if not retry or retry.startswith('again: '):
+            launch(_float_only, job, why if not retry else retry[len('again: '):] + '; second attempt: ' + why)
             return
         r = runner.new_result(unit)
         r['inconclusive'].append('%s: %s (never a pass); float-only retry: %s' % (unit.name, retry, why))
@@ -154,7 +159,7 @@ def run_jobs(jobs, njobs, verbose=False):
                     p.kill()
                 done.append(pid_)
                 if isinstance(got, dict) and '__error__' not in got:
-                    if retry:
+                    if retry and not retry.startswith('again: '):
                         # result of the float-only retry after a crash / hang of the symbolic run
                         if not got['violations']:
                             got['inconclusive'].append('%s: %s (never a pass); float oracle at random points found no discrepancy'
